@@ -155,6 +155,7 @@ func (c *Collection) Update(id string, msg proto.Message, opts ...WriteOption) (
 		changeType = types.ChangeType_ADD
 		oldValue = nil
 	}
+	verifAt("pub.before", &c.mu)
 	c.bus.Send(context.TODO(), &CollectionChange{
 		Id:         id,
 		ChangeTime: writeRequest.updateTime(c.clock),
@@ -162,6 +163,7 @@ func (c *Collection) Update(id string, msg proto.Message, opts ...WriteOption) (
 		OldValue:   oldValue,
 		NewValue:   newValue,
 	})
+	verifAt("pub.after", &c.mu)
 	return newValue, nil
 }
 
@@ -179,6 +181,7 @@ func (c *Collection) Delete(id string, opts ...WriteOption) (proto.Message, erro
 	c.mu.RLock()
 	oldVal, exists := c.byId[id]
 	c.mu.RUnlock()
+	verifAt("del.read", &c.mu)
 
 	for attempt := 0; attempt < 5; attempt++ {
 		if !exists {
@@ -196,10 +199,13 @@ func (c *Collection) Delete(id string, opts ...WriteOption) (proto.Message, erro
 			return oldVal.body, ExpectedValuePreconditionFailed
 		}
 
+		verifAt("del.checked", &c.mu)
 		c.mu.Lock()
+		verifAt("del.locked", &c.mu)
 		oldVal2, exists2 := c.byId[id]
 		if oldVal2 != oldVal || exists2 != exists {
 			// someone changed something while we were checking the value, try again
+			verifAt("del.retry", &c.mu)
 			c.mu.Unlock()
 			oldVal, exists = oldVal2, exists2
 			continue
@@ -207,6 +213,7 @@ func (c *Collection) Delete(id string, opts ...WriteOption) (proto.Message, erro
 
 		// actually do the delete
 		delete(c.byId, id)
+		verifAt("del.removed", &c.mu, id)
 		c.bus.Send(context.TODO(), &CollectionChange{
 			Id:         id,
 			ChangeTime: c.clock.Now(),
@@ -229,6 +236,7 @@ func (c *Collection) Pull(ctx context.Context, opts ...ReadOption) <-chan *Colle
 
 	go func() {
 		defer close(send)
+		defer verifAt("fwd.exit", send)
 
 		if len(currentValues) > 0 {
 			sort.Slice(currentValues, func(i, j int) bool {
@@ -254,13 +262,16 @@ func (c *Collection) Pull(ctx context.Context, opts ...ReadOption) <-chan *Colle
 		}
 
 		for event := range emit {
+			verifAt("fwd.got", send)
 			change := event.(*CollectionChange)
 			change, ok := change.include(readConfig.Include)
 			if !ok {
+				verifAt("fwd.skip", send)
 				continue
 			}
 			change = change.filter(filter)
 			if c.equivalence != nil && c.equivalence.Compare(change.OldValue, change.NewValue) {
+				verifAt("fwd.skip", send)
 				continue
 			}
 			select {
@@ -268,6 +279,7 @@ func (c *Collection) Pull(ctx context.Context, opts ...ReadOption) <-chan *Colle
 			case <-ctx.Done():
 				return
 			}
+			verifAt("fwd.sent", send)
 		}
 	}()
 
@@ -317,7 +329,9 @@ func (c *Collection) onUpdate(ctx context.Context, config *ReadRequest) (<-chan 
 		res = c.itemSlice(config)
 	}
 
+	verifAt("sub.snap", &c.mu)
 	ch := c.bus.Listen(ctx)
+	verifAt("sub.listening", &c.mu)
 	if !config.Backpressure {
 		ch = mergeCollectionExcess(ch)
 	}
